@@ -705,8 +705,10 @@ impl<W: Write + io::Seek> ZipWriter<W> {
             .large_file(file.compressed_size().max(file.size()) > spec::ZIP64_BYTES_THR)
             .last_modified_time(file.last_modified())
             .compression_method(file.compression());
-        if let Some(perms) = file.unix_mode() {
-            options = options.unix_permissions(perms);
+        if let Some(mode) = file.unix_mode() {
+            // keep the whole mode, file type bits included: `unix_permissions` would strip them and
+            // an entry whose permission bits are all zero would lose its mode altogether
+            options.permissions = Some(mode);
         }
 
         let raw_values = ZipRawValues {
